@@ -461,14 +461,37 @@ impl<'a> Model<'a> {
             .worksheet(sheet)?
             .cell(source_row, source_column)
         {
-            Some(c) => c,
+            Some(c) => c.clone(),
             None => return Ok(()),
         };
-        let style = source_cell.get_style();
+        let formula = self.get_cell_formula(sheet, source_row, source_column)?;
+        self.workbook
+            .worksheet_mut(sheet)?
+            .remove_cell(source_row, source_column)?;
+        self.put_moved_cell(
+            sheet,
+            &source_cell,
+            formula,
+            (source_row, source_column),
+            (target_row, target_column),
+        )
+    }
 
-        let mut array = None;
-
-        match source_cell {
+    /// Writes `cell`, which was at `source` and showed `formula` there (if it had one), at
+    /// `target`. Both are (row, column) in `sheet`.
+    ///
+    /// It assumes that the caller has already checked that the move is valid
+    /// (e.g. it does not split an array formula). And that dynamic array spills have been reset.
+    fn put_moved_cell(
+        &mut self,
+        sheet: u32,
+        cell: &Cell,
+        formula: Option<String>,
+        source: (i32, i32),
+        target: (i32, i32),
+    ) -> Result<(), String> {
+        let (target_row, target_column) = target;
+        match cell {
             Cell::EmptyCell { .. }
             | Cell::BooleanCell { .. }
             | Cell::NumberCell { .. }
@@ -477,72 +500,66 @@ impl<'a> Model<'a> {
                 // A cell without a formula is moved as it is. Typing its text again
                 // would change it: `'12` would become a number, a number would be
                 // cut to its displayed digits, URL-like text would get a new link.
-                let cell = source_cell.clone();
-                let worksheet = self.workbook.worksheet_mut(sheet)?;
-                worksheet.update_cell(target_row, target_column, cell)?;
-                worksheet.remove_cell(source_row, source_column)?;
-                return Ok(());
+                self.workbook
+                    .worksheet_mut(sheet)?
+                    .update_cell(target_row, target_column, cell.clone())
             }
-            Cell::CellFormula { .. } => {
-                // The formula is written again at the new position (see below).
-            }
-            Cell::SpillCell { .. } => {
-                // This the spill of an array formula. Because dynamic arrays spills have been deleted
-                // We delete the spill
-                let worksheet = self.workbook.worksheet_mut(sheet)?;
-                worksheet.remove_cell(source_row, source_column)?;
-                return Ok(());
-            }
-            Cell::ArrayFormula {
-                r,
-                kind: ArrayKind::Dynamic,
-                ..
-            } => {
-                // We are moving the anchor of a dynamic formula.
-                // We assume the spill has been taken care of by the caller
-                debug_assert_eq!(*r, (1, 1));
+            Cell::SpillCell { s, a, v } => {
+                // The spills of dynamic arrays have been reset by the caller, so this
+                // cell is part of a CSE array formula: it moves together with its anchor.
+                let anchor = (
+                    a.0 + target_row - source.0,
+                    a.1 + target_column - source.1,
+                );
+                self.workbook.worksheet_mut(sheet)?.update_cell(
+                    target_row,
+                    target_column,
+                    Cell::SpillCell {
+                        s: *s,
+                        a: anchor,
+                        v: v.clone(),
+                    },
+                )
             }
             Cell::ArrayFormula {
                 r,
+                s,
                 kind: ArrayKind::Cse,
                 ..
             } => {
-                // This is an array formula, we need to move the whole range
-                // We rely on the calling function to check that the move is valid and does not split the array formula
-                array = Some(*r);
+                // The anchor of an array formula: its cells move one by one (see above).
+                // We rely on the calling function to check that the move does not split it.
+                let formula = formula.unwrap_or_default();
+                self.set_cell_with_array_formula(
+                    sheet,
+                    target_row,
+                    target_column,
+                    formula.strip_prefix('=').unwrap_or(&formula),
+                    *s,
+                    r.0,
+                    r.1,
+                )?;
+                Ok(())
+            }
+            Cell::CellFormula { .. }
+            | Cell::ArrayFormula {
+                kind: ArrayKind::Dynamic,
+                ..
+            } => {
+                // The formula is written again at the new position. For the anchor of a
+                // dynamic formula we assume the spill has been taken care of by the caller.
+                let style = cell.get_style();
+                self.set_user_input(
+                    sheet,
+                    target_row,
+                    target_column,
+                    formula.unwrap_or_default(),
+                )?;
+                self.workbook
+                    .worksheet_mut(sheet)?
+                    .set_cell_style(target_row, target_column, style)
             }
         }
-        let formula_or_value = self
-            .get_cell_formula(sheet, source_row, source_column)?
-            .unwrap_or_else(|| {
-                source_cell.get_localized_text(
-                    &self.workbook.shared_strings,
-                    self.locale,
-                    self.language,
-                )
-            });
-
-        if let Some((width, height)) = array {
-            // We are moving an array formula, we need to move the whole range
-            self.set_user_array_formula(
-                sheet,
-                target_row,
-                target_column,
-                width,
-                height,
-                &formula_or_value,
-            )?;
-        } else {
-            self.set_user_input(sheet, target_row, target_column, formula_or_value)?;
-        }
-
-        let worksheet = self.workbook.worksheet_mut(sheet)?;
-        // copy style
-        worksheet.set_cell_style(target_row, target_column, style)?;
-
-        // delete source cell content and style
-        worksheet.remove_cell(source_row, source_column)?;
-        Ok(())
     }
 
     /// Inserts one or more new columns into the model at the specified index.
@@ -1085,57 +1102,10 @@ impl<'a> Model<'a> {
                 .workbook
                 .worksheet(sheet)?
                 .cell(r.row, column)
-                .ok_or("Expected Cell to exist")?;
-            let style_idx = cell.get_style();
-            let formula_or_value =
-                self.get_cell_formula(sheet, r.row, column)?
-                    .unwrap_or_else(|| {
-                        cell.get_localized_text(
-                            &self.workbook.shared_strings,
-                            self.locale,
-                            self.language,
-                        )
-                    });
-
-            let mut array = None;
-
-            match cell {
-                Cell::EmptyCell { .. }
-                | Cell::BooleanCell { .. }
-                | Cell::NumberCell { .. }
-                | Cell::ErrorCell { .. }
-                | Cell::SharedString { .. }
-                | Cell::CellFormula { .. } => {
-                    // This is a regular cell, we can just move it.
-                }
-                Cell::SpillCell { .. } => {
-                    // This the spill of an array formula. Because dynamic arrays spills have been deleted
-                    // We delete the spill
-                    let worksheet = self.workbook.worksheet_mut(sheet)?;
-                    worksheet.remove_cell(r.row, column)?;
-                    continue;
-                }
-                Cell::ArrayFormula {
-                    r,
-                    kind: ArrayKind::Dynamic,
-                    ..
-                } => {
-                    // We are moving the anchor of a dynamic formula.
-                    // We assume the spill has been taken care of by the caller
-                    debug_assert_eq!(*r, (1, 1));
-                }
-                Cell::ArrayFormula {
-                    r,
-                    kind: ArrayKind::Cse,
-                    ..
-                } => {
-                    // This is an array formula, we need to move the whole range
-                    // We rely on the calling function to check that the move is valid and does not split the array formula
-                    array = Some(*r);
-                }
-            }
-
-            original_cells.push((r.row, formula_or_value, style_idx, array));
+                .ok_or("Expected Cell to exist")?
+                .clone();
+            let formula = self.get_cell_formula(sheet, r.row, column)?;
+            original_cells.push((r.row, cell, formula));
             let ws = self.workbook.worksheet_mut(sheet)?;
             ws.remove_cell(r.row, column)?;
         }
@@ -1172,15 +1142,8 @@ impl<'a> Model<'a> {
                     .set_column_width_and_style(c + 1, w, h, s)?;
             }
         }
-        for (r, value, style_idx, array) in original_cells {
-            if let Some(a) = array {
-                self.set_user_array_formula(sheet, r, target_column, a.0, a.1, &value)?;
-            } else {
-                self.set_user_input(sheet, r, target_column, value)?;
-            }
-            self.workbook
-                .worksheet_mut(sheet)?
-                .set_cell_style(r, target_column, style_idx)?;
+        for (r, cell, formula) in original_cells {
+            self.put_moved_cell(sheet, &cell, formula, (r, column), (r, target_column))?;
         }
         self.workbook
             .worksheet_mut(sheet)?
@@ -1237,49 +1200,10 @@ impl<'a> Model<'a> {
                 .workbook
                 .worksheet(sheet)?
                 .cell(row, *c)
-                .ok_or("Expected Cell to exist")?;
-            let style_idx = cell.get_style();
-            let formula_or_value = self.get_cell_formula(sheet, row, *c)?.unwrap_or_else(|| {
-                cell.get_localized_text(&self.workbook.shared_strings, self.locale, self.language)
-            });
-            let mut array = None;
-
-            match cell {
-                Cell::EmptyCell { .. }
-                | Cell::BooleanCell { .. }
-                | Cell::NumberCell { .. }
-                | Cell::ErrorCell { .. }
-                | Cell::SharedString { .. }
-                | Cell::CellFormula { .. } => {
-                    // This is a regular cell, we can just move it.
-                }
-                Cell::SpillCell { .. } => {
-                    // This the spill of an array formula. Because dynamic arrays spills have been deleted
-                    // We delete the spill
-                    let worksheet = self.workbook.worksheet_mut(sheet)?;
-                    worksheet.remove_cell(row, *c)?;
-                    continue;
-                }
-                Cell::ArrayFormula {
-                    r,
-                    kind: ArrayKind::Dynamic,
-                    ..
-                } => {
-                    // We are moving the anchor of a dynamic formula.
-                    // We assume the spill has been taken care of by the caller
-                    debug_assert_eq!(*r, (1, 1));
-                }
-                Cell::ArrayFormula {
-                    r,
-                    kind: ArrayKind::Cse,
-                    ..
-                } => {
-                    // This is an array formula, we need to move the whole range
-                    // We rely on the calling function to check that the move is valid and does not split the array formula
-                    array = Some(*r);
-                }
-            }
-            original_cells.push((*c, formula_or_value, style_idx, array));
+                .ok_or("Expected Cell to exist")?
+                .clone();
+            let formula = self.get_cell_formula(sheet, row, *c)?;
+            original_cells.push((*c, cell, formula));
             let ws = self.workbook.worksheet_mut(sheet)?;
             ws.remove_cell(row, *c)?;
         }
@@ -1298,22 +1222,8 @@ impl<'a> Model<'a> {
                 }
             }
         }
-        for (c, value, style_idx, array) in original_cells {
-            if let Some(array_range) = array {
-                self.set_user_array_formula(
-                    sheet,
-                    target_row,
-                    c,
-                    array_range.0,
-                    array_range.1,
-                    &value,
-                )?;
-            } else {
-                self.set_user_input(sheet, target_row, c, value)?;
-            }
-            self.workbook
-                .worksheet_mut(sheet)?
-                .set_cell_style(target_row, c, style_idx)?;
+        for (c, cell, formula) in original_cells {
+            self.put_moved_cell(sheet, &cell, formula, (row, c), (target_row, c))?;
         }
         let worksheet = &mut self.workbook.worksheet_mut(sheet)?;
         let mut new_rows = Vec::new();
